@@ -97,10 +97,29 @@ Definition sstep (n : dm) (ps : seg) (v : dm) (t : thr) : list thr :=
       end
   end.
 
+(* Subset matching, from Slice's documentation — written here independently of the code's sliceBounds:
+   [from,to); negative values are offsets from the end (a negative from is clamped to 0); to is clamped to the
+   length; from beyond the end or beyond to is a non-match.  Only strings and bytes can be sliced. *)
+Definition slice_spec (from to len : Z) : bool * Z * Z :=
+  let to' := if to <? 0 then len + to else Z.min to len in
+  let from' := if from <? 0 then Z.max 0 (len + from) else from in
+  if (from' >? to') || (from' >=? len) then (false, 0, 0) else (true, from', to').
+Definition spec_slice_bytes (ft : Z * Z) (s : bytes) : option bytes :=
+  match slice_spec (fst ft) (snd ft) (len64 s) with
+  | (true, from, to) => Some (firstn (Z.to_nat (to - from)) (skipn (Z.to_nat from) s))
+  | (false, _, _) => None
+  end.
+Definition spec_slice_node (ft : Z * Z) (n : dm) : option dm :=
+  match n with
+  | DString s => match spec_slice_bytes ft s with Some r => Some (DString r) | None => None end
+  | DBytes s => match spec_slice_bytes ft s with Some r => Some (DBytes r) | None => None end
+  | _ => None
+  end.
+
 Definition thr_match (t : thr) (n : dm) : option dm :=
   match t with
   | Thr (SMatch None) _ => Some n
-  | Thr (SMatch (Some ft)) _ => slice_node ft n
+  | Thr (SMatch (Some ft)) _ => spec_slice_node ft n
   | _ => None
   end.
 Fixpoint smatch (ts : list thr) (n : dm) : option dm :=
